@@ -323,6 +323,9 @@ func runC07(c *core.Ctx) {
 			c.Unknown("R4", key, "-", "method not found")
 			continue
 		}
+		// an entry point that only hands the channel operation (a method expression, a closure) to an unexported method
+		// doing the common part is read there: `Take() = q.receive(ChannelQueue[T].Take)`
+		f = c07consumerImpl(p, f)
 		// the channel use: call with blockingQueue receiver, or return of the field
 		var use ssa.Instruction
 		core.Instrs(f, func(ins ssa.Instruction) {
@@ -450,6 +453,7 @@ func runC07(c *core.Ctx) {
 			c.Unknown("R9", "BufferedChannelQueue."+name, "-", "method not found")
 			continue
 		}
+		f = c07consumerImpl(p, f)
 		c.Analysed(core.FuncName(f))
 		// the channel operations: calls of ChannelQueue methods (or direct receives) on the queue's item channel
 		isTaken := func(v ssa.Value) bool {
@@ -1110,4 +1114,25 @@ func c07wakeups(c *core.Ctx) {
 		}
 		c.Check(ok, "R11", key, p.InstrPos(k.ins), "the wake-up taken here is followed by a loading pass before the next take / the end of the loader", "a loader wake-up taken here can be dropped: "+where+" is reached without a loading pass - it may be the one posted by the consumer that just made room in the channel, whose next Take then waits forever although items are parked in the overflow list")
 	}
+}
+
+// c07consumerImpl: f itself when it touches the item channel; otherwise the unexported function of the repository f only
+// forwards to (with its receiver first), where the common part of the consumer entry points then lives.
+func c07consumerImpl(p *core.Prog, f *ssa.Function) *ssa.Function {
+	touches := false
+	core.Instrs(f, func(ins ssa.Instruction) {
+		for _, op := range ins.Operands(nil) {
+			if *op != nil && core.FieldKey(*op) == "BufferedChannelQueue.blockingQueue" {
+				touches = true
+			}
+		}
+	})
+	if touches {
+		return f
+	}
+	tgt, call := core.ThinTarget(p, f)
+	if tgt == nil || tgt.Object() == nil || tgt.Object().Exported() || len(call.Call.Args) == 0 || len(f.Params) == 0 || core.Resolve(call.Call.Args[0]) != ssa.Value(f.Params[0]) {
+		return f
+	}
+	return tgt
 }
